@@ -129,10 +129,13 @@ def _thr(e, dflt):
 def thresholds(nodes):
     """sorted multiset (list of strings) of the numeric thresholds of a list of FunctionDef nodes"""
     out = []
+    root_dflt = _defaults(nodes[0]) if nodes else {}
     for fn0 in nodes:
         fn, params = _inline_single(fn0)
-        dflt = _defaults(fn0)
-        for k, v in dflt.items():
+        own = _defaults(fn0)
+        # a helper that receives the caller's `tol` as a plain parameter of the same name: the value is the caller's default
+        dflt = dict({k: v for k, v in root_dflt.items() if k in params and fn0 is not nodes[0]}, **own)
+        for k, v in own.items():
             if 'tol' in k.lower() or isinstance(v, float):
                 out.append(f"default {k}={v!r}")
         used = set()
@@ -156,8 +159,16 @@ def thresholds(nodes):
         for n in ast.walk(fn):
             for c in ast.iter_child_nodes(n):
                 parents[id(c)] = n
+        inlined_defs = set()       # `tol = 10 * _eps` whose only role is to be inlined at its uses: already counted there
         for n in ast.walk(fn):
-            if isinstance(n, ast.Name) and n.id == '_eps' and id(n) not in used:
+            if isinstance(n, ast.Assign) and len(n.targets) == 1 and isinstance(n.targets[0], ast.Name) and n.targets[0].id not in params:
+                nm = n.targets[0].id
+                nstores = sum(1 for x in ast.walk(fn0) if isinstance(x, ast.Name) and x.id == nm and isinstance(x.ctx, ast.Store))
+                nloads = sum(1 for x in ast.walk(fn0) if isinstance(x, ast.Name) and x.id == nm and isinstance(x.ctx, ast.Load))
+                if nstores == 1 and nloads >= 1:
+                    inlined_defs.update(id(x) for x in ast.walk(n.value))
+        for n in ast.walk(fn):
+            if isinstance(n, ast.Name) and n.id == '_eps' and id(n) not in used and id(n) not in inlined_defs:
                 p = parents.get(id(n))
                 while p is not None and isinstance(p, ast.BinOp) and isinstance(parents.get(id(p)), ast.BinOp):
                     p = parents.get(id(p))
@@ -183,4 +194,5 @@ def same_thresholds(repo, prop, relpath, qual, stop=()):
     """(True/False, found, expected): does the threshold multiset of `qual` (+ helper closure) equal the recorded one"""
     base = load_baseline().get(prop, {}).get(relpath + '::' + qual)
     found = summary(repo, relpath, qual, stop)
-    return (base is not None and found is not None and found == base), found, base
+    # compared as SETS: a refactoring may merge three identical threshold tests into one shared predicate, or unfold one into several
+    return (base is not None and found is not None and sorted(set(found)) == sorted(set(base))), found, base
